@@ -238,13 +238,17 @@ fn value_pool(names: &[&str]) -> Vec<String> {
         v.push(format!("! {n}"));
         v.push(format!("v={n} {n}"));
         v.push(format!(">{n} "));
+        v.push(format!("> {n} "));
+        v.push(format!("x {n} "));
+        v.push(format!("{n} x "));
+        v.push(format!("\\\n{n} "));
     }
     v
 }
 
 /// Command lines placing the names in command, argument, assignment, redirection and post-keyword
 /// positions (`{0}` … `{3}` are replaced by names).
-const LINES: [&str; 60] = [
+const LINES: &[&str] = &[
     "{0}",
     "{0} {1}",
     "{0} {1} {2}",
@@ -305,6 +309,32 @@ const LINES: [&str; 60] = [
     "{0} && {1} \n{2}",
     "{0};{1}&{2}",
     "x {0} \\\n {1}; {2}",
+    "if {0}; then {1}; fi {2}",
+    "if {0}; then {1}; fi > {2} {3}",
+    "{ {0}; } {1}",
+    "( {0} ) | {1} {2}",
+    "f ( {0} { {1}; }",
+    "f ( {0} ) { {1}; }",
+    "f ( ) {0} {1}; }",
+    "case x in ({0}) {1};; esac",
+    "case x in (esac) {0};; esac",
+    "case {0} {1} {2}) x;; esac",
+    "for {0} in {1}; do {2}; done > {3}",
+    "for {0} {1} {2}; do x; done",
+    "while {0}; do {1}; done {2}",
+    "{0} | ! {1}",
+    "! ! {0}",
+    "{0} && ! {1} {2}",
+    "{0} ||\n\n{1} {2}",
+    "{0} ; ; {1}",
+    "{0} >{1} {2}",
+    "x &{0}",
+    "{0} |{1}",
+    "{0} {1}>f",
+    "v=1 >f {0} {1}",
+    "{0} {1} \\\n\\\n {2} {3}",
+    "{0}\n\n{1} # {2}",
+    "{0} <{1}",
 ];
 
 fn render(tpl: &str, ns: &[&str]) -> String {
@@ -414,19 +444,66 @@ fn main() {
     }
 
     // (2) random tables over the full pool (with global aliases) × every line template
-    let ntables = if o.thorough() { 3000 } else { 110 };
+    let ntables = if o.thorough() { 6000 } else { 130 };
     for _ in 0..ntables {
         let mut r = rng.fork();
         let mut t = vec![];
+        let gden = if r.chance(1, 4) { 2 } else { 7 };
         for n in names {
             if r.chance(1, 8) {
                 continue; // name left undefined
             }
             let value = if r.chance(1, 2) { r.pick(&core).clone() } else { r.pick(&pool).clone() };
-            t.push(Entry { name: n.to_string(), global: r.chance(1, 6), value });
+            t.push(Entry { name: n.to_string(), global: r.chance(1, gden), value });
         }
         for l in LINES.iter() {
             // a random assignment of names to the template's slots
+            let ns: Vec<&str> = (0..4).map(|_| *r.pick(names)).collect();
+            out(&t, &render(l, &ns));
+        }
+    }
+
+    // (3) aliases named like reserved words: never substituted where the word is recognised as reserved
+    // (command start, the `in` of `case`, `esac` after `(`), substituted where it is an ordinary word
+    let kw_names = ["if", "then", "fi", "in", "do", "done", "esac", "{", "}", "!", "for", "case"];
+    let kw_lines = [
+        "if {0}; then {1}; fi",
+        "x if then fi",
+        "v=1 if x",
+        ">f then {0}",
+        "case {0} in {1}) {2};; esac",
+        "case x in (esac) {0};; esac",
+        "case in in in) in;; esac",
+        "for x in {0}; do {1}; done",
+        "for in in in; do in; done",
+        "for do in {0}\ndo {1}\ndone",
+        "{ {0}; }",
+        "! {0} !",
+        "{0} { }",
+        "{0} if",
+        "f() if {0}; then {1}; fi",
+        "f ( ) esac {0}",
+    ];
+    let nkw = if o.thorough() { 1500 } else { 60 };
+    for _ in 0..nkw {
+        let mut r = rng.fork();
+        let mut t = vec![];
+        for _ in 0..(1 + r.below(3)) {
+            let name = r.pick(&kw_names).to_string();
+            let value = match r.below(5) {
+                0 => r.pick(&kw_names).to_string(),
+                1 => format!("{} ", r.pick(names)),
+                2 => "x ".to_string(),
+                3 => String::new(),
+                _ => r.pick(&pool).clone(),
+            };
+            t.push(Entry { name, global: r.chance(1, 3), value });
+        }
+        for n in names.iter().take(2) {
+            let value = if r.chance(1, 2) { r.pick(&kw_names).to_string() } else { r.pick(&core).clone() };
+            t.push(Entry { name: n.to_string(), global: r.chance(1, 6), value });
+        }
+        for l in kw_lines.iter() {
             let ns: Vec<&str> = (0..4).map(|_| *r.pick(names)).collect();
             out(&t, &render(l, &ns));
         }
